@@ -22,14 +22,14 @@ type SolverStats struct {
 }
 
 type Solver struct {
-	cmd     *exec.Cmd
-	in      io.WriteCloser
-	out     *bufio.Reader
-	defined map[int]bool // term ids defined (or vars declared) in the current session
-	Stats   SolverStats
-	Log     io.Writer // optional transcript
-	argv    []string
-	dead    bool
+	cmd       *exec.Cmd
+	in        io.WriteCloser
+	out       *bufio.Reader
+	defined   map[int]bool // term ids defined (or vars declared) in the current session
+	Stats     SolverStats
+	Log       io.Writer // optional transcript
+	argv      []string
+	dead      bool
 	timeoutMs int
 	poisoned  bool
 }
